@@ -8,4 +8,7 @@ AllDists == {d \in [1..Blank -> 0..D] : Sum(d) = D /\ d[Blank] > 0}
 AllDistsZ == {d \in [1..Blank -> 0..D] : Sum(d) = D}
 \* strictly positive weights (no zero-mass candidates)
 PosDists == {d \in [1..Blank -> 1..D] : Sum(d) = D}
+\* peaky distributions over 20 units (V = 2): long searches in which a prefix is pruned while its parent and a
+\* longer relative survive, is re-created later and must again merge with that relative ("gap" histories)
+PeakyDists == {<<17, 2, 1>>, <<10, 9, 1>>, <<18, 1, 1>>, <<1, 7, 12>>, <<12, 1, 7>>}
 =============================================================================
